@@ -84,6 +84,9 @@ type GenOpt struct {
 	Flat             bool // allow worlds of unrelated packages (C11)
 	NeedDepth2       bool // force a chain a <- b <- c (C06)
 	CleanChance      int  // out of 4: worlds without @ignore comments and exclude-checks (expectation oracles apply)
+	DirExclude       bool // exclude-paths may name a directory of the world
+	ReadFaults       bool // some files are unreadable / short at report time, identically in every execution
+	LineDirectives   bool // //line directives in use files (non-clean worlds only)
 	LongLines        bool // use statements get long leading block comments / trailing comments (C19 pipeline leg)
 }
 
@@ -93,7 +96,7 @@ var junkPkgs = []string{"nosuch", "github.com/x/y-z.v2", "a/b/c", "util", "x.y/z
 
 // Generate draws a world. Draw 0 is always the simplest alternative.
 var ctorFnTaken map[int]map[string]bool
-var longLines bool
+var longLines, lineDirectives bool
 
 // filler is comment text of n bytes with a few tabs and multi-byte runes.
 func filler(d drw, n int) string {
@@ -117,6 +120,7 @@ func Generate(t Drawer, opt GenOpt) (*World, *Meta) {
 	d := drw{t}
 	ctorFnTaken = map[int]map[string]bool{}
 	longLines = opt.LongLines
+	lineDirectives = opt.LineDirectives
 	w := &World{Module: "ex.test/w"}
 	m := &Meta{}
 	n := d.rng(opt.MinPkgs, opt.MaxPkgs)
@@ -195,11 +199,49 @@ func Generate(t Drawer, opt GenOpt) (*World, *Meta) {
 		}
 		m.Decls = append(m.Decls, pd)
 	}
+	if opt.DirExclude && n > 2 && d.chance(1, 5) {
+		// a non-default exclude-paths pattern that names a directory of the world
+		k := d.Draw(n)
+		frag := m.Decls[k].Dir
+		if i := strings.LastIndex(frag, "/"); i > 0 {
+			frag = frag[:i]
+		} else if len(frag) < 4 {
+			frag = ""
+		}
+		if frag != "" {
+			if w.Cfg.ExcludePaths != "" {
+				w.Cfg.ExcludePaths += ","
+			}
+			w.Cfg.ExcludePaths += frag
+			m.Clean = false // a whole package is inert: the expectation oracles do not model that
+		}
+	}
 	for _, pd := range m.Decls {
 		genDecls(d, w, m, pd)
 	}
 	for _, pd := range m.Decls {
 		renderPkg(d, w, m, pd)
+	}
+	if opt.ReadFaults && d.chance(1, 3) {
+		// what the disk serves at report time differs from what was parsed - the
+		// same way in every execution of this world
+		w.Faults = map[string]string{}
+		for i := range w.Pkgs {
+			for _, f := range w.Pkgs[i].Files {
+				if !d.chance(1, 5) {
+					continue
+				}
+				key := w.Pkgs[i].Path + "|" + f.Name
+				switch d.Draw(3) {
+				case 0:
+					w.Faults[key] = "eio"
+				case 1:
+					w.Faults[key] = "empty"
+				default:
+					w.Faults[key] = fmt.Sprintf("short:%d", d.Draw(len(f.Src)+1))
+				}
+			}
+		}
 	}
 	return w, m
 }
@@ -300,6 +342,9 @@ func genDecls(d drw, w *World, m *Meta, pd *PkgDecl) {
 				}
 				var names []string
 				pool := []string{"New" + td.Name, "Make" + td.Name, "Build" + td.Name, "new" + td.Name, "Init"}
+				if d.chance(1, 6) {
+					pool = []string{"new" + td.Name} // only an unexported constructor
+				}
 				for j := 0; j < cnt; j++ {
 					names = append(names, pool[d.Draw(len(pool))])
 				}
@@ -515,6 +560,15 @@ func renderDecl(d drw, w *World, m *Meta, pd *PkgDecl) File {
 		s.ln("\treturn t")
 		s.ln("}")
 		s.ln("")
+		for _, cn := range td.CtorNames {
+			if cn == "new"+td.Name {
+				// an unexported constructor that really exists (it is invisible in export
+				// data unless something exported refers to it)
+				s.ln("func new%s() *%s { return &%s{} }", td.Name, td.Name, td.Name)
+				s.ln("")
+				break
+			}
+		}
 		s.ln("// Get%s is never annotated.", td.Name)
 		s.ln("func Get%s() *%s { return New%s() }", td.Name, td.Name, td.Name)
 		s.ln("")
@@ -615,6 +669,9 @@ func renderUses(d drw, w *World, m *Meta, pd *PkgDecl, fileName string, nfuncs i
 		k := nfuncs
 		for f := 0; f < k; f++ {
 			td := dep.Types[d.Draw(len(dep.Types))]
+			if lineDirectives && !m.Clean && d.chance(1, 12) {
+				s.ln("//line grammar_%s.y:%d", tag, 2+fn) // small numbers: ignorereader panics in LineStart when the adjusted line exceeds the physical line count (C10, not claimed)
+			}
 			s.ln("func use_%s_%d() {", tag, fn)
 			fn++
 			s.ln("\tx := %sGet%s()", qual, td.Name)
@@ -741,8 +798,31 @@ func renderPkg(d drw, w *World, m *Meta, pd *PkgDecl) {
 	if d.chance(1, 4) {
 		p.Files = append(p.Files, renderUses(d, w, m, pd, "more.go", 1, d.chance(1, 2)))
 	}
+	testType := ""
 	if d.chance(1, 4) {
-		p.Files = append(p.Files, renderUses(d, w, m, pd, "use_test.go", 1, true))
+		f := renderUses(d, w, m, pd, "use_test.go", 1, true)
+		if d.chance(1, 2) {
+			// an annotated type declared in an in-package test file (export_test.go
+			// style): it exists only in the test variant of the package
+			testType = "Tt" + pd.Qual
+			var b strings.Builder
+			fmt.Fprintf(&b, "\n// %s is declared in a test file.\n// @immutable\n// @constructor New%s\ntype %s struct {\n\tA int\n\tB int\n}\n\n", testType, testType, testType)
+			fmt.Fprintf(&b, "func New%s() *%s { return &%s{} }\n\nfunc touch%s() {\n\tx := New%s()\n\tx.A = 2\n\t_ = %s{}\n}\n", testType, testType, testType, testType, testType, testType)
+			f.Src += b.String()
+		}
+		p.Files = append(p.Files, f)
+	}
+	if d.chance(1, 4) {
+		// an external test package: it imports the TEST variant of this package
+		var b strings.Builder
+		td := pd.Types[d.Draw(len(pd.Types))]
+		fmt.Fprintf(&b, "package %s_test\n\nimport %s %q\n\n", pd.Name, pd.Qual, pd.Path)
+		fmt.Fprintf(&b, "func extUse() {\n\tx := %s.Get%s()\n\t_ = x\n\tx.A = 1\n\tx.B++\n\t_ = %s.%s{}\n\t_ = new(%s.%s)\n\t_ = %s.%s()\n\t_ = x.PM()\n", pd.Qual, td.Name, pd.Qual, td.Name, pd.Qual, td.Name, pd.Qual, pd.FuncName())
+		if testType != "" {
+			fmt.Fprintf(&b, "\ty := %s.New%s()\n\ty.A = 3\n\ty.B += 4\n\t_ = %s.%s{A: 1}\n\tvar z %s.%s\n\t_ = z\n", pd.Qual, testType, pd.Qual, testType, pd.Qual, testType)
+		}
+		b.WriteString("}\n")
+		p.Files = append(p.Files, File{Name: "ext_test.go", Src: b.String()})
 	}
 	if strings.Contains(w.Cfg.ExcludePaths, "gen_") && d.chance(1, 2) {
 		p.Files = append(p.Files, renderUses(d, w, m, pd, "gen_skip.go", 1, true))
